@@ -296,7 +296,10 @@ func (d *jsonDecoder) unmarshalList(protolist protoreflect.List, fd protoreflect
 				return err
 			}
 
-			protolist.Append(value)
+			// unknown enum values are skipped when DiscardUnknown is set
+			if value.IsValid() {
+				protolist.Append(value)
+			}
 		}
 	}
 
@@ -342,7 +345,10 @@ func (d *jsonDecoder) unmarshalMap(protomap protoreflect.Map, fd protoreflect.Fi
 			mappedValue = value
 		}
 
-		protomap.Set(protoreflect.MapKey(keyValue), mappedValue)
+		// unknown enum values are skipped when DiscardUnknown is set
+		if mappedValue.IsValid() {
+			protomap.Set(protoreflect.MapKey(keyValue), mappedValue)
+		}
 	}
 
 	return nil
@@ -360,7 +366,11 @@ func (d *jsonDecoder) unmarshalSingular(msg protoreflect.Message, fd protoreflec
 		return err
 	}
 
-	msg.Set(fd, value)
+	// unknown enum values are skipped when DiscardUnknown is set
+	if value.IsValid() {
+		msg.Set(fd, value)
+	}
+
 	return nil
 }
 
@@ -403,7 +413,10 @@ func (d *jsonDecoder) unmarshalScalar(fd protoreflect.FieldDescriptor) (protoref
 				return protoreflect.Value{}, nil
 			}
 		case float64:
-			return protoreflect.ValueOfEnum(protoreflect.EnumNumber(v)), nil
+			// enum numbers are int32 values
+			if v == math.Trunc(v) && v >= math.MinInt32 && v <= math.MaxInt32 {
+				return protoreflect.ValueOfEnum(protoreflect.EnumNumber(v)), nil
+			}
 		}
 
 		return protoreflect.Value{}, fmt.Errorf("invalid value for %v type: %v", fd.Kind(), repr)
